@@ -58,7 +58,18 @@ def build_python(spec, style=None, share=True):
         objs[store][name] = t
         return t
 
+    shared = {}
+
     def circ(c):
+        tag = c.get('__share')
+        if tag is not None and share and tag in shared:
+            return shared[tag]           # the very same CircuitTemplate object is used for several sub-circuits
+        t = _circ(c)
+        if tag is not None:
+            shared[tag] = t
+        return t
+
+    def _circ(c):
         edges = []
         for src, tgt, et, attrs in c.get('edges', []):
             tmpl = get_nt(et, EdgeTemplate, 'edge_types', 'ets') if et else None
@@ -75,7 +86,17 @@ def build_python(spec, style=None, share=True):
         if isinstance(val, (list, tuple)):
             val = np.asarray(val, dtype=float)
         top.update_var(node_vars={upd[0]: val})
+    if spec.get('edge_updates'):
+        top.update_var(edge_vars=[(s_, t_, dict(a_)) for s_, t_, a_ in spec['edge_updates']])
     return top, objs
+
+
+def node_values_kw(spec):
+    import numpy as np
+    nv = {}
+    for path, val in spec.get('node_values', {}).items():
+        nv[path] = np.asarray(val, dtype=float) if isinstance(val, (list, tuple)) else val
+    return nv
 
 
 def build_yaml_text(spec, style=None):
